@@ -258,6 +258,15 @@ def classify_hybridize(F, body, op):
     if 'c' in op:
         return 'const', op['c'].get('s')
     cur, d = lib.resolve_copy(body, op_local(op))
+    if d is None or (d.kind == 'assign' and d.rv['k'] == 'use' and is_place(d.rv['a']) and op_place(d.rv['a'])['p']):
+        # the value travelled in a tuple / Option (`get_latest(r).map(|(a, k)| (*a, k.is_hybridized()))`): follow the field
+        srcs = copy_chain_sources(body, op, through_calls=(r'^std::ops::Try::branch$',) + tuple(IDENTITY_CALLS))
+        calls = [s[1] for s in srcs if s[0] == 'call']
+        if srcs and len(calls) == len(srcs) and all(c.is_(r'RightSecretKey::is_hybridized$') for c in calls):
+            from .. import flags
+            if all(any(x.is_(*flags.HEAD) for x in lib.deep_calls(F, c.body, [c.args[0]])) for c in calls):
+                return 'newest-secret', 'is_hybridized() of get_latest(right)'
+            return 'other-secret', 'is_hybridized() of a secret that is not the newest of the right'
     if d is None:
         return 'unknown', 'several definitions'
     if d.kind == 'assign' and d.rv['k'] == 'use' and 'c' in d.rv['a']:
@@ -444,3 +453,12 @@ def hint_only_for_new_attribute(ctx):
                       'outside loops and per-element closures', c.where())
     ctx.floor(n, 2, 'Attribute::new calls in Dimension::add_attribute')
     c03.disable_only_status(ctx)
+
+
+@rule('C11', 'chain-orientation')
+def chain_orientation(ctx):
+    """'a right that becomes classic is downgraded': update_msk re-aligns the NEWEST secret of an existing right
+    (get_latest_mut), the one key generation, refresh and mpk() hand out (get_latest) — both ends of the accessor pair look at
+    the front of the chain (C04.orientation)."""
+    from . import c04
+    c04.orientation(ctx)
